@@ -123,10 +123,10 @@ func c15StateDiff(a, b *hlModel, r basics.Round) []string {
 func TestVerifC15E2E(t *testing.T) {
 	c := kit.Start(t, "C15", "e2e")
 	defer c.Finish()
-	c.Rule("pairs of real on-disk ledgers with catchpoint tracking run the same PRNG-generated prefix history (0–8 blocks; block hashes compared), the same scripted setup (HL application funded, asset created and opted into, global and local state written), then ONE block in which one transaction differs: box (name, value) vs the bytes moved across the name|value boundary by k bytes [expected collision], or a control difference: one box value byte, one box name byte, a payment amount (two account balances), an asset transfer amount (two holdings), a global state value, a local state value; then empty blocks until both catchpoint trackers have written the first-stage commitments and labels for a balances round after the differing block; labels recomputed for X's block hash from each ledger's committed (trie root, totals, state-proof hash, online hashes) and compared; distinct = (class, name length, value length, shift) tuples")
+	c.Rule("pairs of real on-disk ledgers with catchpoint tracking run the same PRNG-generated prefix history (0–8 blocks; block hashes compared), the same scripted setup (HL application funded, asset created and opted into, global and local state written), then ONE block in which one transaction differs: box (name, value) vs the bytes moved across the name|value boundary by k bytes [expected collision], or a control difference: one box value byte, one box name byte, a payment amount (two account balances), an asset transfer amount (two holdings), the frozen bit of one holding, a global state value, a local state value; then empty blocks until both catchpoint trackers have written the first-stage commitments and labels for a balances round after the differing block; labels recomputed for X's block hash from each ledger's committed (trie root, totals, state-proof hash, online hashes) and compared; distinct = (class, name length, value length, shift) tuples")
 	c.Assume("the differing transaction changes the block hash, so the comparison holds the block hash fixed (X's); SHA-512/256 does not collide on the generated inputs")
 	hlRegisterProtos()
-	classes := []string{"boundary-shift", "box-value-byte", "boundary-shift", "account-balance", "box-name-byte", "asset-holding", "boundary-shift", "global-state-value", "local-state-value", "boundary-shift"}
+	classes := []string{"boundary-shift", "box-value-byte", "asset-frozen-bit", "account-balance", "boundary-shift", "box-name-byte", "asset-holding", "global-state-value", "boundary-shift", "local-state-value", "boundary-shift", "asset-frozen-bit"}
 	n := c.N(12, 60)
 	for i := 0; i < n && c.Violations() < 5; i++ {
 		class := classes[i%len(classes)]
@@ -177,7 +177,7 @@ func TestVerifC15E2E(t *testing.T) {
 				return s.block(
 					[]*txntest.Txn{{Type: protocol.ApplicationCallTx, Sender: creator, ApprovalProgram: approval, ClearStateProgram: clear,
 						GlobalStateSchema: basics.StateSchema{NumUint: 1, NumByteSlice: 3}, LocalStateSchema: basics.StateSchema{NumUint: 1, NumByteSlice: 2}}},
-					[]*txntest.Txn{{Type: protocol.AssetConfigTx, Sender: assetCreator, AssetParams: basics.AssetParams{Total: 1_000_000, UnitName: "u", AssetName: "c15", Manager: assetCreator}}},
+					[]*txntest.Txn{{Type: protocol.AssetConfigTx, Sender: assetCreator, AssetParams: basics.AssetParams{Total: 1_000_000, UnitName: "u", AssetName: "c15", Manager: assetCreator, Freeze: assetCreator}}},
 				)
 			}) {
 				return
@@ -247,6 +247,11 @@ func TestVerifC15E2E(t *testing.T) {
 				gx = []*txntest.Txn{{Type: protocol.AssetTransferTx, Sender: assetCreator, XferAsset: asset, AssetReceiver: holder, AssetAmount: amt}}
 				gy = []*txntest.Txn{{Type: protocol.AssetTransferTx, Sender: assetCreator, XferAsset: asset, AssetReceiver: holder, AssetAmount: amt + 1}}
 				shape = fmt.Sprintf("amount%d", amt%7)
+			case "asset-frozen-bit":
+				// exactly ONE holding differs: X freezes the holder's holding, Y's freeze transaction leaves it unfrozen
+				gx = []*txntest.Txn{{Type: protocol.AssetFreezeTx, Sender: assetCreator, FreezeAsset: asset, FreezeAccount: holder, AssetFrozen: true}}
+				gy = []*txntest.Txn{{Type: protocol.AssetFreezeTx, Sender: assetCreator, FreezeAsset: asset, FreezeAccount: holder, AssetFrozen: false}}
+				shape = "frozen"
 			case "global-state-value":
 				v := cr.Bytes(cr.Range(1, 16))
 				v2 := append([]byte{}, v...)
@@ -332,4 +337,5 @@ func TestVerifC15E2E(t *testing.T) {
 	c.Require("c15e2e.distinguished.account-balance", 1)
 	c.Require("c15e2e.distinguished.asset-holding", 1)
 	c.Require("c15e2e.distinguished.box-name-byte", 1)
+	c.Require("c15e2e.pairs.asset-frozen-bit", 1)
 }
